@@ -20,7 +20,7 @@ func runC18(r *R) {
 
 	// ---- R1, R2
 	r.Rule("C18-R1", "CollectionGet (by PDH): `first <- c` and the callback's nil return only under be.CollectionGet err==nil ∧ (pdh == options.UUID ∨ HasPrefix(options.UUID, pdh+\"+\")), pdh = PortableDataHash(this answer's manifest) computed before rewriting; result delivered only if tryLocalThenRemotes == nil", 3)
-	r.Rule("C18-R2", "rewriteManifest applied only to remote answers (remoteID != \"\" / UUID[:5] != ClusterID) with that cluster's id", 2)
+	r.Rule("C18-R2", "rewriteManifest applied only to remote answers (remoteID != \"\" / UUID[:5] != ClusterID) with that cluster's id; it rewrites +A→+R<id>- only inside block-locator tokens", 3)
 	if outer := r.NeedFn("C18-R1", connT+"CollectionGet"); outer != nil {
 		var cb *ssa.Function
 		for _, cl := range Closures(outer) {
@@ -124,6 +124,29 @@ func runC18(r *R) {
 			}
 			r.Check(g && h == 5, "C18-R2", outer, "rewriteManifest(c.ManifestText, options.UUID[:5])", rw.Pos(), "only for UUIDs of another cluster, with that cluster's id", "local collections are rewritten / wrong id")
 		}
+	}
+
+	if fn := r.NeedFn("C18-R2", fed+".rewriteManifest"); fn != nil {
+		okTok := false
+		for _, c := range CallsIn(fn, "regexp.MustCompile") {
+			if lit, ok := ConstString(c.Common().Args[0]); ok && regexCanon(lit) == regexCanon(` [0-9a-f]{32}\+[^ ]*`) {
+				okTok = true
+			}
+		}
+		okRepl := false
+		for _, cl := range Closures(fn) {
+			for _, c := range CallsIn(cl, "strings.Replace") {
+				a := c.Common().Args
+				from, _ := ConstString(a[1])
+				parts := ConcatParts(a[2])
+				p0, _ := ConstString(parts[0])
+				pl, _ := ConstString(parts[len(parts)-1])
+				if same(a[0], paramOf(cl, "tok")) && from == "+A" && len(parts) == 3 && p0 == "+R" && pl == "-" && Canon(parts[1]) == "free:remoteID" {
+					okRepl = true
+				}
+			}
+		}
+		r.Check(okTok && okRepl, "C18-R2", fn, "rewrite only inside block-locator tokens", fn.Pos(), "tokens ≡ ' <32 hex>+…'; within them +A → +R<id>-", "signature rewriting is not confined to block-locator tokens: stream names or file tokens that contain a signature-shaped string are altered (and the relayed manifest no longer hashes to the requested PDH)")
 	}
 
 	// ---- R3
